@@ -160,17 +160,13 @@ package fiber
 //@   ensures [C08] failing-handler-yields-500: ehRet != nil ==> sentStatus == StatusInternalServerError
 
 // ---------------------------------------------------------------------------------------------
-// The limits the application configured are the limits the server enforces: fasthttp bounds request size,
-// header size and read time only by what init() hands over (a dropped assignment silently means
-// "fasthttp default", e.g. 4 MB bodies instead of a small BodyLimit). init() runs under the application
-// mutex and must release it (a forgotten Unlock wedges every later registration/startup step).
+// (*App).init is contracted in zz_contracts_c06_verif.go (one contract per function); the C07 clauses there:
+//   ensures [C07] limits-reach-the-server: app.server != nil && app.server.MaxRequestBodySize == app.config.BodyLimit &&
+//     app.server.ReadBufferSize == app.config.ReadBufferSize && ... (ReadTimeout, IdleTimeout, Concurrency, StreamRequestBody, GETOnly)
+//   ensures [C07] unlocked-again: !held(app.mutex)
+// The limits the application configured are the limits the server enforces: fasthttp bounds request size, header
+// size and read time only by what init() hands over; init() runs under the application mutex and must release it.
 // ---------------------------------------------------------------------------------------------
-//@ func (*App).init
-//@   requires unlocked: !held(app.mutex)
-//@   ensures limits-reach-the-server: app.server != nil && app.server.MaxRequestBodySize == app.config.BodyLimit && app.server.ReadBufferSize == app.config.ReadBufferSize &&
-//@ ..    app.server.ReadTimeout == app.config.ReadTimeout && app.server.IdleTimeout == app.config.IdleTimeout && app.server.Concurrency == app.config.Concurrency &&
-//@ ..    app.server.StreamRequestBody == app.config.StreamRequestBody && app.server.GetOnly == app.config.GETOnly
-//@   ensures unlocked-again: !held(app.mutex)
 
 // Port(): remote port of a TCP connection (the documented listener networks are tcp/tcp4/tcp6). For any
 // other net.Addr the function panics by design: that explicit panic is excluded, nothing else is.
